@@ -12,6 +12,7 @@ at_boundary: some message had exactly max_size bytes (the property only fixes
            the behaviour above the limit)
 """
 
+COMPRESSED = "<compressed>"
 OP_CONT, OP_TEXT, OP_BIN, OP_CLOSE, OP_PING, OP_PONG = 0, 1, 2, 8, 9, 10
 
 # RFC 6455 7.4.1 + IANA registry entries the implementation's enum lists
@@ -28,12 +29,13 @@ def close_code_ok(code):
     return code in DEFINED_CLOSE_CODES
 
 
-def decode(data, max_size, decode_text, eq_rejects=True):
+def decode(data, max_size, decode_text, eq_rejects=True, compress=False):
     pos = 0
     n = len(data)
     msgs = []
     frag_op = None  # opcode of the fragmented message in progress
     frag = b""
+    frag_compressed = False
     at_boundary = False
     while True:
         if n - pos < 2:
@@ -45,8 +47,15 @@ def decode(data, max_size, decode_text, eq_rejects=True):
         opcode = b0 % 16
         masked = b1 >= 128
         l7 = b1 % 128
+        rsv1 = False
+        if compress and rsv >= 4 and opcode in (OP_TEXT, OP_BIN):
+            # RFC 7692 6: RSV1 marks the first frame of a compressed message
+            rsv1 = True
+            rsv = rsv - 4
         if rsv != 0:
-            return msgs, (1002,), True, at_boundary, "rsv"
+            # with an extension negotiated a reader may notice the size cap of a
+            # data frame before it notices the misplaced RSV1
+            return msgs, ((1002, 1009) if (compress and max_size and opcode < 8) else (1002,)), True, at_boundary, "rsv"
         if opcode not in (OP_CONT, OP_TEXT, OP_BIN, OP_CLOSE, OP_PING, OP_PONG):
             return msgs, (1002,), True, at_boundary, "opcode"
         if opcode >= 8:
@@ -130,6 +139,7 @@ def decode(data, max_size, decode_text, eq_rejects=True):
         if opcode != OP_CONT:
             frag_op = opcode
             frag = b""
+            frag_compressed = rsv1
         frag = frag + payload
         if not fin:
             continue
@@ -137,6 +147,10 @@ def decode(data, max_size, decode_text, eq_rejects=True):
         body = frag
         frag_op = None
         frag = b""
+        if frag_compressed:
+            # content is whatever the (stubbed) inflater yields: opaque here
+            msgs.append((mop, COMPRESSED, None))
+            continue
         if mop == OP_TEXT and decode_text:
             try:
                 text = body.decode("utf-8")
